@@ -1,0 +1,41 @@
+//go:build verif
+
+package nsqlookupd
+
+import (
+	"sync/atomic"
+	"time"
+)
+
+// VerifShiftClock makes d of time pass for the registry without waiting: every
+// PeerInfo.lastUpdate and every tombstone time is moved d into the past, so that the
+// ages computed by FilterByActive / IsTombstoned (now - lastUpdate, now - tombstonedAt)
+// grow by exactly d.  Nothing else is touched.
+func (l *NSQLookupd) VerifShiftClock(d time.Duration) {
+	l.DB.Lock()
+	defer l.DB.Unlock()
+	seen := make(map[*PeerInfo]struct{})
+	for _, producers := range l.DB.registrationMap {
+		for _, p := range producers {
+			if _, ok := seen[p.peerInfo]; !ok {
+				seen[p.peerInfo] = struct{}{}
+				atomic.AddInt64(&p.peerInfo.lastUpdate, -int64(d))
+			}
+			if p.tombstoned {
+				p.tombstonedAt = p.tombstonedAt.Add(-d)
+			}
+		}
+	}
+}
+
+// VerifRegistrationCount returns the number of registration keys and the number of
+// (key, producer) pairs currently stored.
+func (l *NSQLookupd) VerifRegistrationCount() (keys int, producers int) {
+	l.DB.RLock()
+	defer l.DB.RUnlock()
+	for _, pm := range l.DB.registrationMap {
+		keys++
+		producers += len(pm)
+	}
+	return keys, producers
+}
